@@ -149,8 +149,46 @@ Definition scheme (h : hmap) (tls : bool) : str :=
     end
   else conn_scheme h tls.
 
-(* localPort(r) (r is never nil on this path) *)
+(* net.SplitHostPort (modelled after go1.24 net/ipsock.go, compared with the library on every
+   run -- case class CSplit): Some (host, port) or None for every error *)
+Definition has_byte (s : str) (c : N) : bool := existsb (N.eqb c) s.
+
+Definition starts_bracket (hp : str) : bool := match hp with c :: _ => c =? 91 | [] => false end.
+
+Definition split_host_port (hp : str) : option (str * str) :=
+  match last_index_byte hp 58 with
+  | None => None                                       (* missing port in address *)
+  | Some i =>
+      if starts_bracket hp then                        (* hostport[0] == '[' *)
+        match index_byte hp 93 with
+        | None => None                                 (* missing ']' in address *)
+        | Some e =>
+            if Nat.eqb (e + 1) i then
+              if has_byte (skipn 1 hp) 91 || has_byte (skipn (e + 1) hp) 93 then None
+              else Some (firstn (e - 1) (skipn 1 hp), skipn (i + 1) hp)
+            else None                                  (* missing port / too many colons *)
+        end
+      else
+        let host := firstn i hp in
+        if has_byte host 58 then None                  (* too many colons in address *)
+        else if has_byte hp 91 || has_byte hp 93 then None
+        else Some (host, skipn (i + 1) hp)
+  end.
+
+(* localPort(r) (r is never nil on this path), since the repair 25597b0: the port of
+   net.SplitHostPort(r.Host) when that succeeds with non-empty host and port, else the
+   default port of the connection *)
+Definition default_port (tls : bool) : str := if tls then bs "443" else bs "80".
+
 Definition local_port (host : str) (tls : bool) : str :=
+  match split_host_port host with
+  | Some (h, p) => if negb (sempty h) && negb (sempty p) then p else default_port tls
+  | None => default_port tls
+  end.
+
+(* before 25597b0 (F-C08-5, fixed): everything after the FIRST colon of r.Host.  Used by the
+   refutation theorem only. *)
+Definition local_port_unrepaired (host : str) (tls : bool) : str :=
   match index_byte host 58 with
   | Some n => if (Nat.ltb 0 n) && (Nat.ltb n (length host - 1)) then skipn (n + 1) host
               else if tls then bs "443" else bs "80"
